@@ -245,6 +245,17 @@ def make_inv(cfg):
         for k in range(1, T + 1):
             g = [H.arr_var(f"g{k}p{i}", tuple(H.read(p).shape)) for i, p in enumerate(A.params)]
             A.set_grads(g)
+            if cfg.get("grad_bucket"):
+                # the gradients are contiguous views into one flat buffer (as with bucketed gradient all-reduce): non-zero storage offsets
+                import torch
+
+                flat = np.concatenate([np.array([H.zero()], dtype=object)] + [x.reshape(-1) for x in g])
+                bucket = H.to_tensor(flat, A.pdt)
+                off = 1
+                for p, x in zip(A.params, g):
+                    nel = int(np.prod(x.shape)) if x.ndim else 1
+                    p.grad = bucket[off:off + nel].view(*x.shape) if x.ndim else bucket[off:off + nel].reshape(())
+                    off += nel
             # the blocks' own gradients, taken element by element from the map above -- NOT from the implementation's gradient blocking
             gb = []
             for m in bmap:
@@ -285,6 +296,8 @@ def jobs_for(tier):
                # a 2 x 2 grid of blocks (split along two dimensions): block numbering of parameters and gradients must agree
                dict(params=[(4, 4)], mpd=2, merge=False, graft=None, nesterov=False, bias_corr=True, decoupled=True, fixed=dict(mom=0, wd=0), T=1),
                dict(params=[(3, 4)], mpd=2, merge=False, graft="sgd", nesterov=False, bias_corr=True, decoupled=True, fixed=dict(mom=0), T=1),
+               # gradients that are views at non-zero offsets into one flat buffer
+               dict(params=[(2, 3), (3,)], mpd=2, merge=False, graft=None, nesterov=False, bias_corr=True, decoupled=True, fixed=dict(mom=0, wd=0), T=1, grad_bucket=True),
                # a parameter in a non-row-major layout (transposed view), dims too large to merge / merging off
                dict(params=[(3, 2)], mpd=2, merge=False, graft="adam", nesterov=False, bias_corr=True, decoupled=True, fixed=dict(mom=0), strided=True),
                dict(params=[(2, 3)], mpd=4, merge=True, graft=None, nesterov=False, bias_corr=True, decoupled=True, fixed=dict(mom=0, wd=0), strided=True)):
